@@ -112,21 +112,21 @@ def bucketNameOk (nm : Str) : Bool :=
   nm.isEmpty || !(decide (nm.take 7 = "Bucket ".toList) || decide (nm.head? = some '#'))
 
 /-- the edges leaving a row are read with one meaning only: a condition on an edge leaving an action
-row is not the reserved "no response" and names no category; a condition on an edge leaving a `wait_for_response` row names no variable (the operand stays the
-reply) and no category; a condition leaving a split row is not the reserved "no response" and names
-no category; a bucket of a `split_random` row is not given one of the generated bucket names; the
+row is not the reserved "no response"; a condition on an edge leaving a `wait_for_response` row names
+no variable (the operand stays the reply); a condition leaving a split row is not the reserved "no
+response"; a bucket of a `split_random` row is not given one of the generated bucket names; the
 edges leaving a fixed-outcome row are unrestricted (an outcome word that does not exist is an error
 of the compiler) -/
 def edgeOk (rows : List CRow) (e : RefFlow.OutEdge) : Bool :=
   match (rows[e.src]?).map (fun c => kindOf c.row.type) with
-  | some .wait => e.cond.blank || (e.cond.var.isEmpty && e.cond.name.isEmpty)
-  | some .splitValue => e.cond.blank || (!isNR e.cond && e.cond.name.isEmpty)
-  | some .splitGroup => e.cond.blank || (!isNR e.cond && e.cond.name.isEmpty)
+  | some .wait => e.cond.blank || e.cond.var.isEmpty
+  | some .splitValue => e.cond.blank || !isNR e.cond
+  | some .splitGroup => e.cond.blank || !isNR e.cond
   | some .splitRandom => bucketNameOk (bucketName e.cond)
   | some .enterFlow => true
   | some .webhook => true
   | some .airtime => true
-  | some .action => e.cond.blank || (!isNR e.cond && e.cond.name.isEmpty)
+  | some .action => e.cond.blank || !isNR e.cond
   | _ => e.cond.blank
 
 /-- the test a conditional edge leaving a row of kind `k` stands for -/
@@ -162,6 +162,51 @@ def sameVars (rows : List CRow) (out : List RefFlow.OutEdge) : Bool :=
         (fun e => decide (e.cond.var = implVar (out.filter (·.src = j))))
     | none => true
 
+/-! #### category names -/
+
+/-- `generate_category_name` on the list of the names in use: title-cased arguments joined by `_`,
+`_alt` appended until free -/
+def genName (names : List Str) (args : List (Option Str)) : Str :=
+  let rec go (fuel : Nat) (n : Str) : Str :=
+    match fuel with
+    | 0 => n
+    | f + 1 => if names.contains n then go f (n ++ "_alt".toList) else n
+  go (names.length + 1) (Compile.joinUnderscore (args.map fun a => Compile.pyTitle (Compile.argStr a)))
+
+/-- the arguments of the test a condition stands for -/
+def argsOf (k : RefFlow.Kind) (c : RefFlow.Cond) : List (Option Str) :=
+  if k = .splitGroup then [none, some c.value] else [some c.value]
+
+/-- the categories a switch has before any test: the default one, and the timeout one -/
+def baseNames (k : RefFlow.Kind) (tmo : Nat) : List Str :=
+  "Other".toList :: (if k = .wait ∧ tmo ≠ 0 then ["No Response".toList] else [])
+
+/-- the name of the category of a new test, given the names `tn` of the categories of the tests so far:
+the explicit one, or a generated one -/
+def catNameOf (k : RefFlow.Kind) (tmo : Nat) (tn : List Str) (c : RefFlow.Cond) : Str :=
+  if c.name.isEmpty then genName (tn ++ baseNames k tmo) (argsOf k c) else c.name
+
+/-- the names of the categories of the tests `ts`, in order, starting from `tn` -/
+def namesFrom (k : RefFlow.Kind) (tmo : Nat) : List Str → List RefFlow.OutEdge → List Str
+  | tn, [] => tn
+  | tn, e :: ts => namesFrom k tmo (tn ++ [catNameOf k tmo tn e.cond]) ts
+
+/-- an explicit category name is not in use when its test is added (a name in use would make the
+compiler SHARE the category — the new test would redirect the other test's answer —, the
+documentation describes separate answers) -/
+def namesOk (k : RefFlow.Kind) (tmo : Nat) : List Str → List RefFlow.OutEdge → Bool
+  | _, [] => true
+  | tn, e :: ts =>
+    (e.cond.name.isEmpty || !(tn ++ baseNames k tmo).contains e.cond.name) &&
+    namesOk k tmo (tn ++ [catNameOf k tmo tn e.cond]) ts
+
+def freshNames (rows : List CRow) (out : List RefFlow.OutEdge) : Bool :=
+  (List.range rows.length).all fun j =>
+    match rows[j]? with
+    | some c => !(switchTypes.contains c.row.type || decide (kindOf c.row.type = .action)) ||
+      namesOk (kindOf c.row.type) (timeoutOf c.row) [] (testsOf (kindOf c.row.type) (out.filter (·.src = j)))
+    | none => true
+
 /-- fragment F2: action rows and deciding rows (`wait_for_response` with or without timeout,
 `split_by_value`, `split_by_group`), any number of edges per row with explicit `from` row ids, blank
 `from` or `start` — chains, trees, joins, last-edge-wins defaults, tests appended in row order,
@@ -170,7 +215,7 @@ are read off the edges the reference interpretation resolves -/
 def inFragment (rows : List CRow) : Bool :=
   rows.all rowOk &&
   match RefFlow.pass1 (rows.map toRRow) with
-  | .ok out => out.all (edgeOk rows) && distinctTests rows out && sameVars rows out
+  | .ok out => out.all (edgeOk rows) && distinctTests rows out && sameVars rows out && freshNames rows out
   | .error _ => true
 
 end Rpft.CoreSheet
